@@ -42,7 +42,7 @@ ASSUMPTIONS = [
     "a run that records a bounded loop, prints a --depth warning or reports a stuck path is flagged incomplete: uncovered inputs are then C10's matter",
     "symbolic memory offsets/sizes are not generated (documented unsupported -> stuck)",
 ]
-WATCHDOG_S = {"quick": 1500, "thorough": 7200}
+WATCHDOG_S = {"quick": 2400, "thorough": 10800}
 
 MANIFEST = {
     "technique": "coverage oracle over generated programs: concrete inputs (random, boundary, solver-proposed for reported paths and for every pruned alternative) must be admitted by some reported path, decided by symeval; fault injection of `unknown` solver answers with a superset relation; configuration sweep",
